@@ -10,7 +10,8 @@ import vhelp
 
 NAME = "used_lifetimes"
 ENGINE = "verus"
-PROPERTIES = {"C04": "used_method_lifetimes == non-static lifetimes of the success payload UNION those of the error payload (no payload forgotten, nothing invented)",
+PROPERTIES = {"C05": "ReturnType::with_contained_types hands EVERY type carried by the return value (success and error payload) to the validation callback",
+              "C04": "used_method_lifetimes == non-static lifetimes of the success payload UNION those of the error payload (no payload forgotten, nothing invented)",
               "C15": "no panic site"}
 F = "core/src/hir/methods.rs"
 LT = "core/src/hir/lifetimes.rs"
@@ -49,6 +50,15 @@ pub open spec fn in_error(r: ReturnType, l: Lifetime) -> bool {
     match r { ReturnType::Fallible(_, Some(e)) => has(lts_of(&e), l), _ => false }
 }
 pub open spec fn used_spec(r: ReturnType, l: Lifetime) -> bool { in_success(r, l) || in_error(r, l) }
+// E19: recorder standing in for an `impl FnMut(&OutType)` argument
+pub struct Recorder { pub seen: Ghost<Seq<OutType>> }
+impl Recorder {
+    #[verifier::external_body] pub fn call(&mut self, t: &OutType) ensures final(self).seen@ == old(self).seen@.push(*t) { unimplemented!() }
+}
+pub open spec fn contained(r: ReturnType) -> Seq<OutType> {
+    (match success_of(r) { SuccessType::OutType(t) => seq![t], _ => Seq::<OutType>::empty() })
+    + (match r { ReturnType::Fallible(_, Some(e)) => seq![e], _ => Seq::<OutType>::empty() })
+}
 """
 
 CLOSURE_CONTRACT = f"""    ensures {CANARY}
@@ -114,15 +124,25 @@ def build(tier):
     p.sub("E18", rf"\b{cname}\(", f"{cname}(&mut {sname}, ", count="+", why="call of the hoisted closure passes the captured local")
     p.contract(MAIN_CONTRACT, ret_name="r")
     vf.add_piece(p, expected="used_method_lifetimes")
+    # ---- with_contained_types: the driver TypeContext::validate uses to visit every type carried by the return value
+    p = Piece(src, src.item("impl ReturnType::with_contained_types", "fn"))
+    p.sub("E19", r"mut f: impl FnMut\(&OutType\)", "f: &mut Recorder", count=1,
+          why="FnMut callback parameter modelled by a recording object: the function is parametric in the callback, what matters is on which arguments and in which order it is invoked")
+    p.sub("E19", r"\bf\((\w+)\)", r"f.call(\1)", count="+", why="callback invocation recorded")
+    p.contract(f"""        ensures {CANARY}
+            // the callback sees the success payload (if it is a type) and then the error payload (if any) - every type the return value carries
+            final(f).seen@ =~= old(f).seen@ + contained(*self),""")
+    vf.add_piece(p, expected="with_contained_types")
     vf.add("}\n")
     vf.add(vhelp.FOOTER)
     return vf
 
 
-CANARY_FUNCTIONS = ["add_to_set", "used_method_lifetimes"]
+CANARY_FUNCTIONS = ["add_to_set", "used_method_lifetimes", "with_contained_types"]
 ASSUMPTIONS = [
     "E18: the closure `add_to_set` (captures `&mut set`) is verified as a function with `set` as explicit `&mut` parameter; calls pass `&mut set`",
     "E3: std::collections::BTreeSet carried as an abstract set with new()/insert() specified (ordering / iteration order not modelled)",
+    "E19: with_contained_types' `impl FnMut(&OutType)` parameter is modelled by a recording object (parametricity): the contract states on which payloads, in which order, the callback is invoked",
     "E11: Type::lifetimes() (an `impl Iterator` consumed by `for`) carried as the Vec of its items; which lifetimes a type mentions (lts_of) is abstract",
 ]
 UNVERIFIED = {"C04": ["Type::lifetimes() itself", "BorrowingParamVisitor::new's use of the set"], "C15": []}
